@@ -5,6 +5,14 @@ HERE = os.path.dirname(os.path.dirname(os.path.abspath(__file__)))
 ALL = ["C%02d" % i for i in range(1, 21)]
 # id -> (technique, level text, level note, design ref)
 CHECKS = {
+ "C14": ("exhaustive enumeration of option subsets, each executed in all 5 arrangements on an every-type tree; differential comparison of the 5 resulting destinations (no hand-written expectation) plus absence of protocol errors",
+         "all 512 subsets of {-l,-p,-t,-g,-o,-D,-c,-I,-n} with -r, combined with {--devices,--specials,--no-D,--delete,--exclude=x} (quick: singles/pairs on every 8th subset; thorough: all 16 384), 5 real sessions each against a destination with stale, quick-check-equal, extraneous and exclude-protected entries: no session may fail and all 5 destinations must agree on entry set, types, bytes, link targets, rdev, perms (-p), regular mtime (-t), owner/group (-o/-g)",
+         "differential oracle: a deviation shared by all arrangements is invisible here (C01/C09/C10/C11/C13 judge absolute outcomes)",
+         "DESIGN.md §5 C14"),
+ "C07": ("bounded-exhaustive enumeration of upload requests (flag subsets x target forms x module configurations x transports) by a scripted daemon-protocol client against the real daemon; before/after snapshot of all module directories",
+         "every subset of 10 receive-mode flags x 5 target forms x 3 module configurations (single read-only module; read-only module between writable modules with prefix-related names; fs.FS module) with benign and hostile file lists over the in-memory transport, and a stride of them over TCP (Server.Serve) and stdin/stdout (Main --server --daemon): nothing under the directory holding all modules may change and the client must see an error (with the read-only message on the deterministic transport)",
+         "the scripted client sends what the daemon protocol allows a client to send; landlock is disabled in-process (it would only add protection)",
+         "DESIGN.md §5 C07"),
  "C13": ("bounded-exhaustive enumeration of filter rule lists x trees x arrangements as real sessions, compared with a reference first-match filter",
          "every rule list of length <=2 (thorough <=3) over {exclude, include} x 6 names spelled via --exclude/--include/-f on 3 trees (names recurring at depths 1-3, files and directories in every sort position) in all 5 arrangements: destination entry set and bytes must equal the reference selection; wildcard rules must produce an error in every arrangement",
          "plain-name rules only, as the property states; reference filter = first rule whose name equals the base name",
